@@ -48,8 +48,9 @@ Step(e) ==
          /\ UNCHANGED <<bad, hdr, reqs, resps, ret, acted, extra>>
     [] e.ev = "Compare" ->
          \* a packet whose attribute block is shorter than its flags announce is decoded lazily by the package and
-         \* answered with an error status; those cases are only subject to the crash / leak / return clauses
-         /\ acted' = Set(acted, ~e.softmalformed /\ e.refComplete /\ ~e.stateEqual,
+         \* answered with an error status, and the stream goes on; for those the state after the prefix plus that ONE frame
+         \* (softStateEqual) is compared: the packet must not have been acted upon either
+         /\ acted' = Set(acted, (~e.softmalformed /\ e.refComplete /\ ~e.stateEqual) \/ (e.softmalformed /\ e.refComplete /\ ~e.softStateEqual),
                          "served files / handlers differ from a run of the well-formed prefix alone: a malformed packet or something after it was acted upon")
          /\ extra' = Set(extra, ~e.softmalformed /\ e.refComplete /\ ~e.respEqual,
                          "responses differ from the responses to the well-formed prefix")
